@@ -10,6 +10,7 @@ package main
 // open typographic quotes come right before documents that would pick such state up.
 
 import (
+	"github.com/yuin/goldmark/ast"
 	"bytes"
 	"strings"
 	"fmt"
@@ -115,6 +116,18 @@ func implHistory(cs Case) ImplResult {
 			fails = append(fails, OracleFail{"C06", clause, fmt.Sprintf(f, a...)})
 		}
 	}
+	// trees parsed EARLY in the history are kept and rendered again at its END: a tree must not alias parser-owned
+	// scratch memory that later parses reuse (pooled buffers behind titles, labels, destinations, attribute values)
+	type kept struct {
+		src   []byte
+		doc   ast.Node
+		first []byte
+		dump  string
+	}
+	var retained []kept
+	multi := []string{"[home page](/index \"Go to the\nhome page\")\n", "[a]: /u \"multi\nline title\"\n\n[a] ![a]\n", "[foo\nbar]\n\n[foo bar]: /u 'x\ny'\n",
+		"![i](/s (t1\nt2))\n", "[l](</d> \"a\nb\nc\")\n", "# h {title=\"a b\"}\n\n[x][y\nz]\n\n[y z]: /q\n"}
+	hist = append([][]byte{[]byte(multi[rng.Intn(len(multi))]), []byte(multi[rng.Intn(len(multi))])}, hist...)
 	for step, src0 := range hist {
 		src := src0
 		if reuse && len(src0) <= len(reusedBuf) {
@@ -159,6 +172,24 @@ func implHistory(cs Case) ImplResult {
 		after, _ := DumpTree(doc, src, c.EAStyle(), nil)
 		if before != after {
 			fail("render-alters-tree", "source %q: tree dump differs after rendering", src)
+		}
+		if step < 4 {
+			own := append([]byte{}, src0...)
+			d2 := shared.Parser().Parse(text.NewReader(own))
+			var f1 bytes.Buffer
+			_ = shared.Renderer().Render(&f1, own, d2)
+			dump, _ := DumpTree(d2, own, c.EAStyle(), nil)
+			retained = append(retained, kept{own, d2, f1.Bytes(), dump})
+		}
+	}
+	for _, k := range retained {
+		var again bytes.Buffer
+		_ = shared.Renderer().Render(&again, k.src, k.doc)
+		if !bytes.Equal(again.Bytes(), k.first) {
+			fail("retained-tree-render-differs", "source %q: the tree parsed early in the history rendered %q then, %q after %d more documents", k.src, k.first, again.Bytes(), len(hist))
+		}
+		if dump, _ := DumpTree(k.doc, k.src, c.EAStyle(), nil); dump != k.dump {
+			fail("retained-tree-changed", "source %q: the tree parsed early in the history changed while later documents were parsed", k.src)
 		}
 	}
 	return ImplResult{Out: "ok", NoModel: true, Fails: fails, Checks: checks, Key: cs.Args[0] + "|" + cs.Args[1]}
